@@ -246,3 +246,65 @@ package consensus
 //@   loop 1: invariant 0 <= idx && idx <= len(aux.PreCommitPayloads) && forall(k, 0, idx, len(aux.PreCommitPayloads[k].Data) == 4)
 //@   ensures [C19] @allLists implies(result == nil, sameelems(m.preparationPayloads, gRecoveryAux.PreparationPayloads) && sameelems(m.preCommitPayloads, gRecoveryAux.PreCommitPayloads) && sameelems(m.commitPayloads, gRecoveryAux.CommitPayloads) && sameelems(m.changeViewPayloads, gRecoveryAux.ChangeViewPayloads))
 //@   ensures [C19] @wellFormed implies(result == nil, rmwf(m))
+
+// assumed about the neighbouring packages (internal/crypto, internal/merkle): the hash is a function of the bytes,
+// a tree over a non-empty list has a root, a signature is checked over its first 64 bytes
+//@ extern crypto.Hash256
+//@   pure
+//@ extern merkle.NewMerkleTree
+//@   ensures implies(len(arg0) > 0, result != nil)
+//@ extern merkle.(*Tree).Root
+//@   ensures result != nil
+//@ extern crypto.(ECDSAPub).Verify
+//@   requires len(arg1) >= 64
+//@ func (commit).Signature
+//@   ensures [C19] @fixedLength len(result) == 64
+//@ func (amevCommit).Signature
+//@   ensures [C19] @fixedLength len(result) == 64
+
+// ---- blocks: the header is fixed at construction, signing and caching the hash do not touch it ----
+
+//@ func NewBlock
+//@   requires timestamp / 1000000000 <= 4294967295
+//@   ensures [C19] @header result != nil && as(neoBlock, result).base.Index == index && as(neoBlock, result).base.PrevHash == prevHash && as(neoBlock, result).base.ConsensusData == nonce && as(neoBlock, result).base.Timestamp == timestamp / 1000000000 && as(neoBlock, result).base.Version == 0
+//@   ensures [C19] @noHashYet as(neoBlock, result).hash == nil && isnil(as(neoBlock, result).signature)
+//@ func (*neoBlock).SetTransactions
+//@   modifies heap neoBlock.transactions
+//@ func (*neoBlock).Sign
+//@   requires key != nil
+//@   modifies gEncoded, heap neoBlock.signature
+//@ func (*neoBlock).Verify
+//@   requires pub != nil && len(sign) >= 64
+//@   modifies gEncoded
+//@ func (*neoBlock).Hash
+//@   modifies gEncoded, heap neoBlock.hash, heap box.*
+//@   ensures [C19] @cachedOnce implies(old(b.hash) != nil, b.hash == old(b.hash) && result == *old(b.hash))
+//@ func NewPreBlock
+//@   requires timestamp / 1000000000 <= 4294967295
+//@   ensures [C19] @header result != nil && as(preBlock, result).base.Index == index && as(preBlock, result).base.PrevHash == prevHash && as(preBlock, result).base.ConsensusData == nonce && as(preBlock, result).base.Timestamp == timestamp / 1000000000 && as(preBlock, result).base.Version == 0
+//@ func (*amevBlock).SetTransactions
+//@   modifies nothing
+//@ func (*amevBlock).Sign
+//@   requires key != nil
+//@   modifies gEncoded, heap amevBlock.signature
+//@ func (*amevBlock).Verify
+//@   requires pub != nil && len(sign) >= 64
+//@   modifies gEncoded
+//@ func (*amevBlock).Hash
+//@   modifies gEncoded, heap amevBlock.hash, heap box.*
+//@   ensures [C19] @cachedOnce implies(old(b.hash) != nil, b.hash == old(b.hash) && result == *old(b.hash))
+
+// ---- byte-level readers check the length before they read ----
+
+//@ func (*Tx64).UnmarshalBinary
+//@   requires t != nil
+//@   ensures [C19] @lengthChecked implies(result == nil, len(data) == 8)
+//@ func (*preBlock).Verify
+//@   ensures [C19] @lengthChecked implies(result == nil, len(data) == 4)
+//@ func NewPreCommit
+//@   requires len(data) >= 4
+//@   ensures [C19] @fresh result != nil
+//@ func (preCommit).Data
+//@   ensures [C19] @fourBytes len(result) == 4
+//@ func (*preBlock).Data
+//@   ensures [C19] @fourBytes len(result) == 4
